@@ -152,22 +152,43 @@ GenVector ==
                          exp |-> [version |-> d.version, code |-> d.code, headers |-> d.headers, body |-> d.body]]))
 GenInv == GenVector
 
-\* Set-Cookie: every subset of the 7 attributes
-Cookies == { [name |-> "sid", value |-> "abc123", attrs |-> A, expires |-> "Wed, 21 Oct 2015 07:28:00 GMT",
-              maxage |-> ma, domain |-> "example.com", path |-> "/", samesite |-> ss] :
-             A \in SUBSET AttrNames, ss \in {"Strict", "Lax", "None"}, ma \in {0, 3600} }
+\* Set-Cookie: every subset of the 7 attributes ...
+CookieBase == [name |-> "sid", value |-> "abc123", attrs |-> AttrNames, expires |-> "Wed, 21 Oct 2015 07:28:00 GMT",
+               maxage |-> "3600", millis |-> 0, domain |-> "example.com", path |-> "/", samesite |-> "Lax"]
+CookieSubsets == { [CookieBase EXCEPT !.attrs = A, !.samesite = ss, !.maxage = ma] :
+                   A \in SUBSET AttrNames, ss \in {"Strict", "Lax", "None"}, ma \in {"0", "3600"} }
+\* ... and boundary VALUES per attribute.  Max-Age: whole seconds around 2^24 (f32 mantissa), 2^31, 2^32, 2^53
+\* (f64 mantissa) and up to u64::MAX, each with sub-second parts on both sides of one half.
+MaxAges == {"0", "1", "59", "3600", "86400", "31536000", "16777215", "16777216", "16777217", "33554433", "2147483647",
+            "2147483648", "4294967295", "4294967297", "9007199254740993", "18446744073709551", "18446744073709551615"}
+Millis == {0, 1, 499, 500, 999}
+RECURSIVE Rep(_, _)
+Rep(s, k) == IF k = 0 THEN "" ELSE IF k % 2 = 1 THEN s \o Rep(s, k - 1) ELSE LET h == Rep(s, k \div 2) IN h \o h
+\* "~" stands for a non-ASCII character (the harness substitutes one in the input and in the expectation)
+CookieValues ==
+       { [CookieBase EXCEPT !.attrs = A, !.maxage = ma, !.millis = ms] : A \in {AttrNames, {"Max-Age"}}, ma \in MaxAges, ms \in Millis }
+  \cup { [CookieBase EXCEPT !.expires = e] : e \in {"Thu, 01 Jan 1970 00:00:00 GMT", "Fri, 31 Dec 9999 23:59:59 GMT", "Sun, 06 Nov 1994 08:49:37 GMT"} }
+  \cup { [CookieBase EXCEPT !.domain = d, !.path = pa] :
+          d \in {"example.com", ".sub.example.com", "xn--bcher-kva.example", "b~cher.example", "a=b.example"},
+          pa \in {"/", "/a b/c", "/q=1&r=2", "/caf~", "/" \o Rep("p", 300)} }
+  \cup { [CookieBase EXCEPT !.name = n, !.value = v] :
+          n \in {"sid", "n", Rep("N", 4096)}, v \in {"", "a=b", "k=v=w==", "Zm9v=", Rep("v", 4096)} }
+Cookies == CookieSubsets \cup CookieValues
 CookieInit ==
   /\ \E c \in Cookies : meta = [k |-> "c", head |-> "", frames |-> <<>>, c |-> c]
   /\ InitApi(Resp("HTTP/1.1", 200, <<>>, ""))
+\* the model of the code (Cookie_HeaderValue) yields a value that means the cookie, and that value survives a
+\* response round trip as one header line
 CookieInv ==
   LET c == meta.c
-      v == SetCookieValue(c)
+      v == Cookie_HeaderValue(c)
       r == Resp("HTTP/1.1", 200, <<Hdr("Set-Cookie", v), Hdr("Set-Cookie", "other=1")>>, "")
   IN /\ CookieMeans(v, c)
+     /\ CookieMeans(SetCookieValue(c), c)
      /\ LemmaRoundTrip(r)
      /\ PrintT(ToJson([k |-> "c", name |-> c.name, value |-> c.value, attrs |-> c.attrs, expires |-> c.expires,
-                       maxage |-> c.maxage, domain |-> c.domain, path |-> c.path, samesite |-> c.samesite,
-                       exp |-> v, pair |-> c.name \o "=" \o c.value, avs |-> CookieAvs(c)]))
+                       maxage |-> c.maxage, millis |-> c.millis, domain |-> c.domain, path |-> c.path, samesite |-> c.samesite,
+                       exp |-> SetCookieValue(c), pair |-> c.name \o "=" \o c.value, avsets |-> CookieAvSets(c)]))
 
 \* cookies and the many-headers family in one generation run
 ExtraInit == CookieInit \/ InitFamMany
